@@ -13,7 +13,7 @@ from ..core import Prop, Result
 from ..simfs import SimFS, Policy
 
 READ_INPUTS = ["ok", "ok_wrapped", "ok_big", "nosections", "hdrerr", "reshape", "decode", "lidar", "empty",
-               "missing", "bom", "one_line", "utf16", "latin1", "textcol", "hdrerr_late", "lidar_bom"]
+               "missing", "bom", "one_line", "utf16", "latin1", "textcol", "hdrerr_late", "lidar_bom", "decode_late"]
 READ_KW = [
     {},
     {"engine": "normal"},
@@ -61,6 +61,12 @@ def read_input_bytes(kind, n, m):
         b = docmodel.join(lines).encode("utf-8")
         i = b.find(b"ACME")
         return b[:i] + b"\xff\xfe\xfa" + b[i:]
+    if kind == "decode_late":
+        # undecodable bytes far beyond the part that encoding detection and the first decode chunk look at
+        lines = docmodel.simple_doc(n + 2, 400 + m)
+        b = docmodel.join(lines).encode("utf-8")
+        i = b.rfind(b"\n", 0, len(b) - 40)
+        return b[:i] + b" \xff\xfe\xfa" + b[i:]
     if kind == "lidar":
         return b"LASF" + bytes(range(0, 200))
     if kind == "empty":
@@ -155,8 +161,12 @@ class C20(Prop):
         if call.startswith("read"):
             sc["input"] = g.choice(READ_INPUTS)
             sc["kw"] = dict(g.choice(READ_KW))
-            if sc["input"] == "decode":
-                sc["kw"] = {"encoding": "utf-8", "encoding_errors": "strict"}
+            if sc["input"] in ("decode", "decode_late"):
+                sc["kw"] = g.choice([{"encoding": "utf-8", "encoding_errors": "strict"}, {"encoding_errors": "strict"},
+                                     {"encoding_errors": "strict", "autodetect_encoding": False}, {"encoding": "ascii", "encoding_errors": "strict"}])
+            if sc["input"] == "decode_late":
+                sc["policy"] = Policy(buffer=g.choice([256, 8192]), chunk=g.choice([64, 8192])).to_json()
+                sc["cap"] = min(sc["cap"], 60)
             if sc["input"] == "ok_big":
                 sc["policy"] = Policy(buffer=g.choice([64, 256, 8192]), chunk=g.choice([32, 8192])).to_json()
         elif call.startswith("write"):
